@@ -388,7 +388,7 @@ def search(c, rng):
 
 LEVEL_TEXT = ("Proof: Properties/C02.v states the partition (Header ++ payload = packet, both payload accessors, error for "
               "adaptation-field-only), SetPayload (count = min(n, capacity), read-back, header and adaptation-field content "
-              "preserved, gap stuffed with 0xFF, well-formedness kept, refusal on adaptation-field-only packets) for ALL "
+              "preserved, gap stuffed with 0xFF, well-formedness kept (for n >= 1 payload bytes; for n = 0 no well-formed result exists that keeps the payload flag: known finding K2, C02_set_payload_result_wf_refuted), refusal on adaptation-field-only packets) for ALL "
               "well-formed packets and ALL payloads, and the creation helpers, over a model of packet.go/modify.go/create.go and "
               "the adaptation-field primitives they use; no axioms.  The model is tied to the code by running both on "
               "packets serialised from logical records by the extracted Coq serialiser.")
